@@ -705,6 +705,7 @@ def run(ctx):
     if tvh is None:
         ctx.violation("harness does not build against /repo", {"unchecked": "cargo build"}, concrete=False)
         return
+    regression_lines(ctx, tvh, ["c16"])
     i1, m1 = run_pair(ctx, tvh, "c16", c_def)
     impl.update(zip(c_def, i1))
     model.update(zip(c_def, m1))
